@@ -658,6 +658,7 @@ func ruleR25_5(c *Check) {
 }
 
 func propC25(c *Check) {
+	ruleR12_6(c) // a stream's SinceTs iterators filter a copy of the level's table list, never the list itself
 	ruleR25_5(c)
 	ruleR25_1(c)
 	ruleR25_2(c)
@@ -892,7 +893,88 @@ func onlyLoopGuards(w *World, f *Fn, n ast.Node) bool {
 	return true
 }
 
+// R24.5: a batch handed to the asynchronous write path is not written again by the sender.
+func ruleR24_5(c *Check) {
+	w := c.W
+	r := c.Rule("R24.5", "E10", 2, "a slice of entries handed to the asynchronous write path (DB.batchSetAsync, DB.sendToWriteCh keep it in the request until the write loop applied it) is given away: the variable or field it came from is never re-sliced (`x = x[:0]`, `append(x[:0], …)`) anywhere — it is replaced by a fresh allocation, nil or a literal before it is filled again",
+		"re-using the backing array overwrites entries of a batch that is still queued: earlier entries are never written and later ones twice, while Load reports success")
+	async := []types.Object{w.Func("badger.DB.batchSetAsync"), w.Func("badger.DB.sendToWriteCh")}
+	var k keyer
+	n := 0
+	for _, f := range w.Fns {
+		if shortPkg(f.Pkg) != "badger" || isCmdPkg(f) || f.Body == nil {
+			continue
+		}
+		f := f
+		f.walk(func(x ast.Node) bool {
+			call, ok := x.(*ast.CallExpr)
+			if !ok || len(call.Args) == 0 {
+				return true
+			}
+			isAsync := false
+			for _, o := range async {
+				if w.Callee(call) == o {
+					isAsync = true
+				}
+			}
+			if !isAsync {
+				return true
+			}
+			n++
+			arg := unparen(call.Args[0])
+			// the thing handed over: a struct field or a local variable
+			var stores []Occ
+			what := short(w, arg)
+			if fld := w.fieldOf(arg); fld != nil {
+				stores = allStores(w, fld)
+			} else if id, isId := arg.(*ast.Ident); isId {
+				if v, isVar := w.Use(id).(*types.Var); isVar && !v.IsField() {
+					for _, o := range f.Root().SitesDeep(selStoreVar(v)) {
+						stores = append(stores, o)
+					}
+				}
+			} else {
+				r.Check(true, f, k.key("batch handed over is a fresh expression", w, call), call, "")
+				return true
+			}
+			bad := 0
+			for _, o := range stores {
+				as, isAs := o.Node.(*ast.AssignStmt)
+				if !isAs {
+					continue
+				}
+				for i, l := range as.Lhs {
+					same := types.ExprString(unparen(l)) == types.ExprString(arg) || (w.fieldOf(l) != nil && w.fieldOf(l) == w.fieldOf(arg))
+					if !same || len(as.Rhs) != len(as.Lhs) {
+						continue
+					}
+					reslice := false
+					ast.Inspect(as.Rhs[i], func(m ast.Node) bool {
+						if se, isSl := m.(*ast.SliceExpr); isSl {
+							if (w.fieldOf(se.X) != nil && w.fieldOf(se.X) == w.fieldOf(arg)) || types.ExprString(unparen(se.X)) == types.ExprString(arg) {
+								reslice = true
+							}
+						}
+						return true
+					})
+					if reslice {
+						bad++
+						r.Check(false, o.SiteFn, k.key("handed-over batch is not re-sliced", w, as), as, what+" is handed to the asynchronous write path at "+w.Position(call.Pos())+" and re-sliced here: the next fill overwrites entries of a batch that may still be queued")
+					}
+				}
+			}
+			if bad == 0 {
+				r.Check(true, f, k.key("handed-over batch is replaced, not re-used", w, call), call, "")
+			}
+			return true
+		})
+	}
+	r.Exists(n >= 3, nil, "asynchronous hand-over sites", nil, "expected the call sites of batchSetAsync and sendToWriteCh")
+}
+
 func propC24(c *Check) {
+	ruleR24_5(c)
+	ruleR12_6(c) // SinceTs iterators (incremental backups) filter a copy of the level's table list
 	ruleR24_1(c)
 	ruleR24_2(c)
 	ruleR24_3(c)
